@@ -103,25 +103,69 @@ def check_json_ints(obj, path="$"):
     raise tlc.MachineryError("unsupported type in trace at %s: %r" % (path, type(obj)))
 
 
-def validate(spec_dirs, module, cfg, items, name="trace", timeout=900, chunk=None, cfg_text=None):
-    """items: list of JSON-able dicts each with an 'id'. Returns TraceVerdicts (merged over chunks)."""
+_EVAL_ERROR_MARKS = (
+    "Attempted to",
+    "evaluating the expression",
+    "was not in the domain",
+    "is not in the domain",
+    "out of the domain",
+    "nonexistent field",
+    "tuple index out of",
+    "applied to",
+    "The exception was a java.lang.RuntimeException",
+    "TLC encountered",
+)
+
+
+def _is_eval_error(res):
+    """TLC could not EVALUATE a formula on a recorded state (CHOOSE without witness, function applied outside its domain, ...):
+    the recorded state lies outside the domain of the model's operators. Such an error concerns one event of one item."""
+    err = res.error or ""
+    return "The behavior up to this point is" in res.out and any(m in err or m in res.out for m in _EVAL_ERROR_MARKS)
+
+
+def _last_position(out):
+    """(tid, l) of the last state TLC printed in an error behaviour (1-based item index within the chunk, event index)."""
+    import re
+
+    tids = re.findall(r"^/\\ tid = (\d+)", out, flags=re.M)
+    ls = re.findall(r"^/\\ l = (\d+)", out, flags=re.M)
+    return (int(tids[-1]) if tids else None, int(ls[-1]) if ls else None)
+
+
+def validate(spec_dirs, module, cfg, items, name="trace", timeout=900, chunk=None, cfg_text=None, skip_field=None):
+    """items: list of JSON-able dicts each with an 'id'. Returns TraceVerdicts (merged over chunks).
+
+    Verdicts are total also when TLC cannot evaluate a formula on a recorded state: the chunk is bisected down to the item, the
+    event is recorded as an L2 failure ("not a step of the model"), and - when the trace module honours `skip_field` (a list
+    of event numbers whose L2 formula is not evaluated) - the item is validated again so that L1 is judged on ALL its events.
+    An evaluation error on every item of a call is a machinery failure, never a verdict."""
     check_json_ints(items)
     ids = [it["id"] for it in items]
     if len(set(map(str, ids))) != len(ids):
         raise tlc.MachineryError("duplicate trace ids")
     v = TraceVerdicts()
-    chunks = [items] if not chunk else [items[i : i + chunk] for i in range(0, len(items), chunk)]
-    for ci, part in enumerate(chunks):
+    v.eval_errors = {}
+    if skip_field:
+        for it in items:
+            it.setdefault(skip_field, [])
+
+    def run_part(part):
         wd = tlc.prepare_workdir(spec_dirs, name)
-        if cfg_text is not None:
-            with open(os.path.join(wd, cfg), "w", encoding="utf-8") as f:
-                f.write(cfg_text)
-        tf = os.path.join(wd, "traces.json")
-        with open(tf, "w", encoding="utf-8") as f:
-            json.dump(part, f, separators=(",", ":"))
-        res = tlc.run_tlc(wd, module, cfg, workers=1, timeout=timeout, env={"VERIF_TRACES": tf}, deque=True)
-        if not res.ok:
-            raise tlc.MachineryError("trace validation run failed (%s): %s" % (module, res.out[-2000:]))
+        try:
+            if cfg_text is not None:
+                with open(os.path.join(wd, cfg), "w", encoding="utf-8") as f:
+                    f.write(cfg_text)
+            tf = os.path.join(wd, "traces.json")
+            with open(tf, "w", encoding="utf-8") as f:
+                json.dump(part, f, separators=(",", ":"))
+            return tlc.run_tlc(wd, module, cfg, workers=1, timeout=timeout, env={"VERIF_TRACES": tf}, deque=True, allow_violation=True)
+        finally:
+            import shutil
+
+            shutil.rmtree(wd, ignore_errors=True)
+
+    def collect(res, part):
         done = None
         for t in printed_tuples(res.out):
             if not t:
@@ -134,12 +178,48 @@ def validate(spec_dirs, module, cfg, items, name="trace", timeout=900, chunk=Non
                     v.l2.setdefault(tid, []).append(line)
             elif t[0] == "DONE":
                 done = t
+        return done
+
+    def do_part(part, depth=0):
+        res = run_part(part)
+        if res.error:
+            if not _is_eval_error(res):
+                raise tlc.MachineryError("TLC error in %s/%s: %s\n%s" % (module, cfg, res.error, res.out[-3000:]))
+            if len(part) > 1:
+                mid = len(part) // 2
+                do_part(part[:mid], depth + 1)
+                do_part(part[mid:], depth + 1)
+                return
+            it = part[0]
+            _tid, ln = _last_position(res.out)
+            # the state TLC printed last is the one BEFORE the event it could not evaluate
+            ln = ln if ln is not None else 0
+            first_line = (res.error or "").strip().splitlines()
+            v.eval_errors.setdefault(it["id"], []).append((ln, " ".join(x.strip() for x in first_line[3:7])[:300]))
+            if skip_field and ln >= 1 and ln not in it[skip_field] and len(it[skip_field]) < 25:
+                it[skip_field] = sorted(it[skip_field] + [ln])
+                do_part([it], depth + 1)
+                return
+            collect(res, part)  # verdicts printed before the error stay valid
+            v.l2.setdefault(it["id"], []).append(ln)
+            v.n_items += 1
+            return
+        if not res.ok:
+            raise tlc.MachineryError("trace validation run failed (%s): %s" % (module, res.out[-2000:]))
+        done = collect(res, part)
         if done is None or done[1] != len(part):
             raise tlc.MachineryError("trace validation did not reach the end (%s): got %r expected %d items\n%s" % (module, done, len(part), res.out[-1500:]))
+        for it in part:
+            if skip_field and it.get(skip_field):
+                v.l2.setdefault(it["id"], []).extend(it[skip_field])
+                v.l2[it["id"]] = sorted(set(v.l2[it["id"]]))
         v.n_items += done[1]
         v.n_events += done[2]
         v.result = res
-        import shutil
 
-        shutil.rmtree(wd, ignore_errors=True)
+    chunks = [items] if not chunk else [items[i : i + chunk] for i in range(0, len(items), chunk)]
+    for part in chunks:
+        do_part(part)
+    if v.eval_errors and len(v.eval_errors) == len(items) and len(items) > 3:
+        raise tlc.MachineryError("TLC could not evaluate the trace formulas on ANY of %d items (%s): %s" % (len(items), module, list(v.eval_errors.items())[:2]))
     return v
